@@ -65,6 +65,7 @@ fn probe(sc: &Scenario, reps: usize) -> Option<(isize, [isize; 4])> {
     let before = live();
     let ok = catch_unwind(AssertUnwindSafe(|| {
         let mut g = build_generator(&sc.config, first_seed, None);
+        let mut cfg = sc.config.clone();
         for rep in 0..reps {
             for h in &sc.history {
                 match h {
@@ -77,6 +78,15 @@ fn probe(sc: &Scenario, reps: usize) -> Option<(isize, [isize; 4])> {
                     HOp::SetFlags(e, b) => {
                         g.allow_ext_opcodes = *e;
                         g.allow_buffer_opcodes = *b;
+                    }
+                    HOp::SetUnsafe(u) => {
+                        g.unsafe_mutations = *u;
+                        cfg.unsafe_mutations = *u;
+                        g.mutators = crate::exec::make_mutators(&cfg.mutators, *u, &None);
+                    }
+                    HOp::SetMutators(m) => {
+                        cfg.mutators = m.clone();
+                        g.mutators = crate::exec::make_mutators(&cfg.mutators, cfg.unsafe_mutations, &None);
                     }
                     HOp::Gen(Entropy::Rand(s)) => {
                         g.seed = Some(*s);
